@@ -213,8 +213,13 @@ impl VM {
                 }),
                 pos,
             )?;
+            Ok(())
+        } else {
+            Err(Error::new(
+                format!("No cast from {} to {}", val.type_name(), t).into(),
+                pos,
+            ))
         }
-        Ok(())
     }
     fn op_cast(&mut self, t: CastType) -> Result<(), Error> {
         let (val, pos) = self.pop()?;
